@@ -415,6 +415,50 @@ def extra(ctx, uberjob):
                 ctx.fail("unusual-exception:account", "a call raising a %s object: %s; %d failed notification(s); run %s"
                          % (type(exc).__name__, d or "account well-formed", nfailed, oc), {"exception": type(exc).__name__, "max_workers": workers,
                                                                                       "notifications": [repr(e) for e in seq[:30]]})
+    # (g) an observer is an ordinary object: it may define __len__ / __bool__ (a recorder that reports how many events it holds)
+    # and be falsy - it still receives the whole account
+    for falsy_by in ("__bool__", "__len__"):
+        class FalsyRec(Rec):
+            pass
+        if falsy_by == "__bool__":
+            FalsyRec.__bool__ = lambda self: False
+        else:
+            FalsyRec.__len__ = lambda self: 0
+
+        class FalsyProgress(Progress):
+            def __init__(self):
+                self.made = []
+
+            def observer(self):
+                return FalsyRec(self.made)
+        for with_registry in (False, True):
+            plan = uberjob.Plan()
+            x_ = plan.call(lambda: 1)
+            y_ = plan.call(lambda v: v + 1, x_)
+            reg_ = uberjob.Registry()
+            if with_registry:
+                class M(uberjob.ValueStore):
+                    v, t = None, None
+
+                    def read(self):
+                        return self.v
+
+                    def write(self, v):
+                        self.v, self.t = v, dt.datetime(2021, 1, 1)
+
+                    def get_modified_time(self):
+                        return self.t
+                reg_.add(x_, M())
+            prog = FalsyProgress()
+            uberjob.run(plan, output=y_, registry=reg_ if with_registry else None, progress=prog, max_workers=2)
+            seq = prog.made[0].seq if prog.made else []
+            d = py_wf(seq)
+            tot = sum(e[2][1] for e in seq if e[0] == "total" and e[1] == "run")
+            done = sum(1 for e in seq if e[0] == "completed" and e[1] == "run")
+            ctx.case(("c15-falsy-observer", falsy_by, with_registry))
+            if d or tot != done or tot == 0:
+                ctx.fail("falsy-observer", "an observer object that is falsy (defines %s): %s; run totals %d, completed %d" % (falsy_by, d or "account well-formed", tot, done),
+                         {"falsy_by": falsy_by, "registry": with_registry, "notifications": [repr(e) for e in seq[:30]]})
     # (f) the same Progress listed twice takes part twice
     for form in ("[p, p]", "(p, q, p)"):
         p_, q_ = RecProgress(), RecProgress()
